@@ -2,6 +2,7 @@
 # apply a seeded change to /repo, run the given checks, undo it.  usage: seedrun.sh <seed dir> <Cxx>...
 seed=$1; shift
 cd /verif
+rm -rf build/evidence.keep; cp -r evidence build/evidence.keep
 git -C /repo diff --quiet || { echo "/repo has uncommitted changes"; exit 2; }
 git -C /repo apply $(realpath $seed)/patch.diff || { echo APPLY-FAILED; exit 2; }
 for p in "$@"; do
@@ -9,3 +10,4 @@ for p in "$@"; do
   echo "== $(basename $seed) vs $p: rc=$rc"; grep -E "^VIOLATION|^  failed obligation|^UNDECIDED|^OK|^KNOWN" build/seedrun_$p.out | cut -c1-260 | head -8
 done
 git -C /repo checkout -- .
+rm -rf evidence; cp -r build/evidence.keep evidence   # evidence of a patched tree is never kept
